@@ -32,13 +32,14 @@ theorem sim_by_term2 {val : Val} {voters : List Id} {n : Nat} {s : Spec.State} {
     (hreach : Spec.Reachable (cfgOf voters) s)
     (hty : Deliverable m.typ) (h0 : m.term ≠ 0) (hin : InOK val n (s.nodes n) s.msgs m)
     (hself : (m.typ = .voteResp ∨ m.typ = .appResp) → m.from = n → m.to = n ∧ SelfOK n r m)
+    (hfrom : m.typ = .app ∨ m.typ = .heartbeat → m.from ≠ n)
     (h : (Raft.step (fuel + 1) m).run r = .ok (e, r')) : BothSim val voters n s r r' := by
   rcases Nat.lt_trichotomy m.term r.term with hlt | heq | hgt
-  · have := sim_lower_term hinv h0 hlt hty h
-    subst this
-    exact ⟨RaftSim.refl hinv, haux, AuxFrame.refl _⟩
+  · obtain ⟨a1, a2⟩ := aux_lower_term haux h0 hlt hty hfrom h
+    exact ⟨RaftSim.refl (hinv.lower_term h0 hlt hty h), a1, a2⟩
   · exact H s r hinv haux hreach heq hin hself h
-  · obtain ⟨r1, hbf, h1⟩ := raise_term_run hinv hgt hty h
+  · rcases raise_term_run hinv hgt hty h with rfl | ⟨r1, hbf, h1⟩
+    · exact ⟨RaftSim.refl hinv, haux, AuxFrame.refl _⟩
     obtain ⟨s1, hrun, hmsgs, hdur, hinv1, ht1, _⟩ := sim_raise_term' hinv hgt hbf
     obtain ⟨haux1, hfr1⟩ := aux_becomeFollower haux (Nat.le_of_lt hgt) (fun _ => hgt) hbf
     have hact : ∀ a ∈ [Spec.Action.updateTerm n m.term], a.actor = n := by simp [Spec.Action.actor]
@@ -119,6 +120,7 @@ theorem selfStepOK2 (val : Val) (voters : List Id) (n : Nat) : SelfStepOK2 val v
     rcases hk with hk | hk
     · exact sameTerm2_voteResp hk
     · exact sameTerm2_appResp hk
-  exact sim_by_term2 H hinv haux hreach hty (inOK_term_ne hk hin) hin (fun _ _ => ⟨hto, hself⟩) h
+  exact sim_by_term2 H hinv haux hreach hty (inOK_term_ne hk hin) hin (fun _ _ => ⟨hto, hself⟩)
+    (fun hx => by rcases hk with hk | hk <;> rcases hx with hx | hx <;> rw [hk] at hx <;> cases hx) h
 
 end RaftVerif.Sim
